@@ -7,6 +7,7 @@
 static Outcome runCase(const KV& c)
 {
     Outcome o;
+    StdoutSilencer quiet(c.getI("verbose", 0) > 0);
     SolverCfg cfg = SolverCfg::get(c);
     std::unique_ptr<GMGPolar> s = cfg.make();
     try {
@@ -223,6 +224,7 @@ static KV genCase()
     if (s.max_levels > 0 && tot - (s.max_levels - 1) > 5)
         s.max_levels = tot - 4;
     s.via_cli = rint(0, 1);
+    s.verbose = rweighted({4, 1, 1}); // a diagnostic option: must not change what is computed
     if (rint(0, 5) == 0) {
         // a grid loaded from files; the parametric options are then irrelevant
         s.grid_kind = rint(1, 5);
